@@ -31,9 +31,14 @@ NSINK = 4
 @st.composite
 def s_history(draw):
     cfg = {"fallback": draw(st.booleans()), "fb_dssr": draw(st.booleans())}
+    if cfg["fallback"] and cfg["fb_dssr"] and draw(st.integers(0, 3)) == 0:
+        # the fallback sink itself registers one more rule from inside its startTestRun / stopTestRun
+        cfg["reentrant"] = {"when": draw(st.sampled_from(["start", "stop"])), "sink": 3, "test_id": "zz"}
     ops = []
     used_prefix, used_ids = set(), set()
     dssr_sinks = {0} if cfg["fallback"] and cfg["fb_dssr"] else set()
+    if "reentrant" in cfg:
+        dssr_sinks.add(cfg["reentrant"]["sink"])      # it will be registered for start/stop by the fallback sink
     in_run = False
     n = draw(st.integers(1, 14))
     for _ in range(n):
@@ -84,6 +89,23 @@ def run_history(spec):
     cfg = spec["cfg"]
     vs = []
     sinks = [streams.Recorder("s%d" % i) for i in range(NSINK)]
+    re_cfg = cfg.get("reentrant")
+    fired = []
+    if re_cfg:
+        class Reentrant(streams.Recorder):
+            def _maybe(self, when):
+                if re_cfg["when"] == when and not fired:
+                    fired.append(when)
+                    router.add_rule(sinks[re_cfg["sink"]], "test_id", test_id=re_cfg["test_id"], do_start_stop_run=True)
+
+            def startTestRun(self):
+                streams.Recorder.startTestRun(self)
+                self._maybe("start")
+
+            def stopTestRun(self):
+                streams.Recorder.stopTestRun(self)
+                self._maybe("stop")
+        sinks[0] = Reentrant("s0")
     if cfg["fallback"]:
         router = StreamResultRouter(sinks[0], do_start_stop_run=cfg["fb_dssr"])
     else:
@@ -94,6 +116,7 @@ def run_history(spec):
     want = [[] for _ in range(NSINK)]
     in_run = False
     both = multi = midrun = False
+    model_fired = []
     for op in spec["ops"]:
         k = op["op"]
         if k in ("route", "id"):
@@ -128,13 +151,26 @@ def run_history(spec):
         elif k == "start":
             router.startTestRun()
             in_run = True
-            for s in dssr:
+            for s in list(dssr):
                 want[s].append(("startTestRun",))
+                if re_cfg and s == 0 and re_cfg["when"] == "start" and not model_fired:
+                    # registered while the run is being started: it is started in this run too, once
+                    model_fired.append(1)
+                    ids[re_cfg["test_id"]] = re_cfg["sink"]
+                    dssr.append(re_cfg["sink"])
+                    want[re_cfg["sink"]].append(("startTestRun",))
         elif k == "stop":
             router.stopTestRun()
             in_run = False
-            for s in dssr:
+            for s in list(dssr):
                 want[s].append(("stopTestRun",))
+                if re_cfg and s == 0 and re_cfg["when"] == "stop" and not model_fired:
+                    # registered while the run is still in progress: started at once, and stopped with the run
+                    model_fired.append(1)
+                    ids[re_cfg["test_id"]] = re_cfg["sink"]
+                    dssr.append(re_cfg["sink"])
+                    want[re_cfg["sink"]].append(("startTestRun",))
+                    want[re_cfg["sink"]].append(("stopTestRun",))
         else:
             ev = op["ev"]
             kw = streams.kwargs_of(ev)
